@@ -434,7 +434,7 @@ func init() {
 		register(&Check{
 			ID:        id,
 			QuickSecs: 1200, // safety net only: the quick tier is sized to finish in 2-4 minutes on 16 idle cores
-			ThoroSecs: 2400,
+			ThoroSecs: 3600,
 			Rule: "stateless model checking of the real dag.Graph.Run (instrumented at build time) under a cooperative scheduler: " +
 				"every scenario of the family (labelled DAGs x result scripts x modes x cancellation/buffering/shared tasks/construction histories) is executed for every schedule with <= k scheduling deviations, " +
 				"<= d map-iteration-order deviations and all task completion orders; evaluations = complete executions; states = choice points visited beyond replayed prefixes; " +
